@@ -134,7 +134,7 @@ def run_shard(spec):
         if a[0] != "ok" and b[0] != "ok":
             col.skip("source_not_executable")
             return
-        feeds_list = override_feeds(gm, seeds) if gm.overridable else []
+        feeds_list = override_feeds(gm, gm.seeds(4)) if gm.overridable else []
         verdicts, info = check(gm.model, o, feeds_list, gm.overridable)
         feats = set(gm.features)
         nontrivial = bool(feats & {"If", "Loop", "function"}) or bool(gm.overridable)
